@@ -71,6 +71,10 @@ func effEqual(a, b []Node) bool {
 func judgeProg(c *Case, obs Obs) Verdict {
 	al := c.Allow
 	v := Verdict{Obs: obs, Class: al.K}
+	sig := c.Sig
+	if sig == "" {
+		sig = c.Tag
+	}
 	if al.K == "div" {
 		v.Verdict = "skip"
 		return v
@@ -90,12 +94,12 @@ func judgeProg(c *Case, obs Obs) Verdict {
 	}
 	if obs.K == "panic" || obs.K == "hang" {
 		v.Verdict = obs.K
-		v.Key = fmt.Sprintf("%s:%s:%s", obs.K, obs.Site, c.Tag)
+		v.Key = fmt.Sprintf("%s:%s:%s", obs.K, obs.Site, sig)
 		return v
 	}
 	bad := func(what string) Verdict {
 		v.Verdict = "mismatch"
-		v.Key = fmt.Sprintf("value:%s:%s->%s:%s", c.Tag, al.K, obs.K, what)
+		v.Key = fmt.Sprintf("value:%s:%s->%s:%s", sig, al.K, obs.K, what)
 		v.Note = what
 		return v
 	}
